@@ -90,6 +90,7 @@ def main():
         obligations.append({"name": "judge executable builds", "kind": "correspondence", "ok": False, "detail": build_txt[-2000:]})
     for st in (streams if judge_ok else []):
         cfg, lines, kind = st["cfg"], st["lines"], st.get("kind", "judge")
+        if not lines: continue
         if st.get("expand"):
             # two-pass stream: the first (unjudged) run of the real code produces the bytes the second pass feeds back
             exe0, err0 = build_harness.build(cfg.split("+")[0], REPO)
